@@ -137,6 +137,9 @@ def run(ctx, mode):
     common.gates_tie(ctx)
     circ = 'Insertion' if mode == 'ins' else 'Deletion'
     tmism = common.trace_tie(ctx, targets(mode, ctx.thorough))
+    # T-trace-kernel: the recorded constraint lists as Lean terms, equality with the model's trace
+    # decided by the kernel, meaning theorems instantiated at the regenerated terms
+    tmism += common.kernel_trace_tie(ctx, 'Ins' if mode == 'ins' else 'Del')
     for d, b in ([(3, 2), (30, 4)] + ([(1, 1), (2, 3), (8, 2), (20, 7)] if ctx.thorough else [])):
         if mode == 'del' and d > 31:
             continue
